@@ -26,7 +26,8 @@ Inductive val :=
 | VKRes (kid : Z) (args : list val)
 | VPyObj (pid : Z)                (* a Python function object used as a value *)
 | VSym (s : Z)                    (* a symbol; the name it denotes is s (names and symbols share one space) *)
-| VKlong.                         (* the interpreter object handed to a `klong` parameter *)
+| VKlong                          (* the interpreter object handed to a `klong` parameter *)
+| VUndef.                         (* :undefined (what a Python None argument of a wrapper call becomes) *)
 
 Inductive pname := PX | PY | PZ | PKlong | POther.
 
@@ -332,7 +333,8 @@ Inductive form :=
 | FOver (vs : list val)                               (* n/[v1 v2 ...] *)
 | FAt (args : list val)                               (* n@[a b c] *)
 | FStaged (stages : list (list (option val)))         (* p::n(a;;); q::p(;c); q(b) : any number of stages *)
-| FStagedEach (stages : list (list (option val))) (vs : list val).   (* ... q'[v1 v2 ..] : the last stage is one value *)
+| FStagedEach (stages : list (list (option val))) (vs : list val)    (* ... q'[v1 v2 ..] : the last stage is one value *)
+| FEach2 (xs ys : list val).                          (* xs n'ys : pairwise, stops at the shorter list *)
 
 Definition apply_staged (fl : flags) (st : state) (n : Z) (stages : list (list (option val))) : state * res :=
   match all_some (merge stages) with
@@ -355,6 +357,20 @@ Fixpoint staged_each_loop (fl : flags) (st : state) (n : Z) (stages : list (list
       end
   end.
 
+Fixpoint each2_loop (fl : flags) (st : state) (n : Z) (xs ys : list val) : state * option (list val) :=
+  match xs, ys with
+  | x :: xr, y :: yr =>
+      match apply_name fl st n [x; y] with
+      | (st1, RVal r) =>
+          match each2_loop fl st1 n xr yr with
+          | (st2, Some rs) => (st2, Some (r :: rs))
+          | (st2, None) => (st2, None)
+          end
+      | (st1, _) => (st1, None)
+      end
+  | _, _ => (st, Some [])
+  end.
+
 Definition run_form (fl : flags) (st : state) (n : Z) (f : form) : state * res :=
   match f with
   | FDirect args => apply_name fl st n args
@@ -375,6 +391,11 @@ Definition run_form (fl : flags) (st : state) (n : Z) (f : form) : state * res :
       end
   | FAt args => apply_name fl st n args
   | FStaged stages => apply_staged fl st n stages
+  | FEach2 xs ys =>
+      match each2_loop fl st n xs ys with
+      | (st', Some rs) => (st', RVal (VList rs))
+      | (st', None) => (st', RErr)
+      end
   | FStagedEach stages vs =>
       match staged_each_loop fl st n stages vs with
       | (st', Some xs) => (st', RVal (VList xs))
